@@ -873,7 +873,7 @@ class Gen:
         elif v == "WHOWAS":
             s = "WHOWAS " + self.pick_nick(0.3)
             if r.random() < 0.4:
-                s += " " + r.choice(["0", "1", "2", "x", "-1"])
+                s += " " + r.choice(["0", "1", "2", "x", "-1", "5", "20", "99999999999999999999"])
             self.line(c, s)
         elif v == "LIST":
             x = r.random()
